@@ -181,7 +181,7 @@ def step (st : State) : Stmt → Except Fail State
     | none => .error .inactive
     | some s =>
       if n = 0 ∨ top ≤ n then .error .range else
-      let off := s.curr % n
+      let off := (s.base + s.buf.length) % n   -- the true cursor (fix F26): not the saturated `curr_addr`
       if off = 0 then .ok st else append st (placeholder (n - off))
   | .label n =>
     match st.active with
